@@ -52,7 +52,45 @@ def plan(tier):
     # instruments whose sample records have the older, shorter layout (no start position): loaded, a sample field
     # assigned, saved and loaded again
     descs.append({"kind": "short_records", "examples": per})
+    from vlib import subproc
+
+    names = sorted(subproc.VARIANTS)
+    for i in range(2):
+        # a fixed set of instruments (the fixture, its legacy variants, generated ones) loaded and saved in interpreters
+        # started in other ways
+        descs.append({"kind": "interpreters", "variants": names[i::2]})
     return descs
+
+
+def fixed_sampler_digests():
+    """{name: digest of the loaded state + of the re-saved file} for a fixed set of Sampler files"""
+    import hashlib
+    import json
+
+    from rv.api import Synth, read_sunvox_file
+    from vlib.harness import jsonable
+
+    with open(os.path.join(REPO, "tests", "files", "sampler.sunsynth"), "rb") as f:
+        fixture = f.read()
+    files = {"fixture": fixture}
+    for variant in ("signature", "no_envelopes", "both"):
+        files["fixture_" + variant] = legacy_variant_bytes(fixture, variant)[0]
+    files["fixture_short_records"] = build.short_sample_records(fixture)[0]
+    for k, (fields, spec) in enumerate(build.sampler_record_grid_specs()):
+        if k % 29 == 0:
+            files["grid_%d" % k] = Synth(build.make_module(spec)).read()
+    for k, ms in enumerate(build.big_payload_module_specs()):
+        if ms["type"] == "Sampler":
+            files["big_%d" % k] = Synth(build.make_module(ms)).read()
+    out = {}
+    for name, data in files.items():
+        try:
+            mod = read_sunvox_file(BytesIO(data)).module
+            snap = snapshot.snap_module(mod, in_project=False)["payload"]
+            out[name] = hashlib.sha256(json.dumps(jsonable(snap), sort_keys=True).encode()).hexdigest()[:16] + ":" + hashlib.sha256(Synth(mod).read()).hexdigest()[:16]
+        except Exception as e:  # noqa: BLE001
+            out[name] = "raised %s: %s" % (type(e).__name__, str(e)[:80])
+    return out
 
 
 @st.composite
@@ -487,6 +525,11 @@ def run_shard(ctx, desc):
     if desc["kind"] == "short_records":
         run_short_records(ctx, desc)
         return
+    if desc["kind"] == "interpreters":
+        from vlib import subproc
+
+        subproc.digests_agree(ctx, "C16", "checks.c16", "fixed_sampler_digests", desc["variants"])
+        return
     k = desc["kind"]
     if k == "legacy":
 
@@ -528,6 +571,15 @@ def run_shard(ctx, desc):
 
 
 def replay(ctx, doc):
+    if doc["recipe"].get("op") == "interpreter":
+        from vlib import subproc
+        from vlib.harness import Ctx
+
+        c2 = Ctx(ctx.prop, ctx.tier, ctx.seed, 0, 1, [])
+        subproc.digests_agree(c2, "C16", "checks.c16", "fixed_sampler_digests", [doc["recipe"]["variant"]])
+        if c2.failures:
+            raise PropertyViolation(c2.failures[0]["sub_oracle"], c2.failures[0]["detail"], c2.failures[0]["key"])
+        return
     if doc["recipe"].get("tag") in ("edit_history", "short_records") or (isinstance(doc["recipe"].get("case"), dict) and doc["recipe"]["case"].get("transform")):
         from checks import c06
 
